@@ -317,3 +317,48 @@ Proof.
   pose proof (check_opts_none_in uri_ok _ _ H (feature_spec f) x Ho Hx) as K. simpl in K.
   apply require_none in K. destruct x; simpl in K; try discriminate; eauto.
 Qed.
+
+(* ---------- repeated sub-structures are handled entry by entry (no state across loop iterations) ---------- *)
+(* parse: the i-th role of the object is computed from the i-th entry of details["roles"] alone *)
+Theorem extract_roles_pointwise : forall cfg od rd i,
+  dget (s2l "roles") od = Some (VDict rd) ->
+  nth_error (extract_roles cfg od) i = option_map (extract_role cfg) (nth_error rd i).
+Proof. intros cfg od rd i H. unfold extract_roles. rewrite H. apply nth_error_map. Qed.
+
+(* marshal: the i-th entry written under "roles" is computed from the i-th role of the object alone *)
+Theorem marshal_roles_pointwise : forall cfg rs i,
+  match marshal_roles cfg rs with
+  | VDict rd => nth_error rd i = option_map (marshal_role cfg) (nth_error rs i)
+  | _ => False
+  end.
+Proof. intros. unfold marshal_roles. cbv iota beta. apply nth_error_map. Qed.
+
+(* every feature flag that is set on a role is written under that role's own "features", with its value *)
+Theorem role_feature_marshalled : forall cfg name feats vals i f v,
+  cfg_wf cfg = true -> find_role cfg name = Some feats ->
+  List.length vals = List.length feats ->
+  nth_error feats i = Some f -> nth_error vals i = Some v -> is_null v = false ->
+  exists e, snd (marshal_role cfg (KS name, vals)) = VDict [(KS (s2l "features"), VDict e)]
+            /\ dget (s2l f) e = Some v.
+Proof.
+  intros cfg name feats vals i f v Hcfg Hf Hlen Hi Hv Hn.
+  unfold marshal_role. cbn [fst snd]. rewrite Hf.
+  assert (Hnd : NoDup (okeys (role_specs feats))).
+  { rewrite okeys_role_specs. apply nodupb_NoDup. exact (cfg_wf_nodup (fun _ => true) cfg Hcfg name feats Hf). }
+  assert (Hs : nth_error (role_specs feats) i = Some (feature_spec f)).
+  { unfold role_specs. rewrite nth_error_map, Hi. reflexivity. }
+  assert (Hh : holds vals (feature_spec f) v = true) by (unfold holds; simpl; rewrite Hn; reflexivity).
+  pose proof (dget_emit_nth vals (role_specs feats) vals [] [] i (feature_spec f) v Hnd (fun _ _ => eq_refl) Hs Hv Hh) as D.
+  simpl in D. rewrite app_nil_r in D. fold (emit (role_specs feats) vals) in D.
+  destruct (emit (role_specs feats) vals) as [|x e] eqn:Ee.
+  - simpl in D. discriminate.
+  - simpl is_nil. cbv iota. exists (x :: e). split; [reflexivity | exact D].
+Qed.
+
+(* ... and a role comes back with exactly its own feature values, whatever the other roles carry *)
+Theorem role_roundtrip : forall cfg r, cfg_wf cfg = true -> role_shape_ok cfg r = true ->
+  extract_role cfg (marshal_role cfg r) = r.
+Proof. intros. apply extract_role_marshal_role; auto. apply (cfg_wf_nodup (fun _ => true)); auto. Qed.
+
+Lemma roles_cfg_wf : cfg_wf hello_roles = true /\ cfg_wf welcome_roles = true.
+Proof. split; vm_compute; reflexivity. Qed.
